@@ -297,6 +297,12 @@ def gen_c12(tier, seed):
         if not any(f.get("traces") for f in grp):
             grp[0]["traces"] = traces_for(grp[0]["params"])
         cases.append({"funcs": grp, "strategy": "REPLICATE", "k": 0, "family": "c12_shapes"})
+    # the same qualified name with a different kind in every module (many modules per process)
+    for n in range(60 if tier == "quick" else 600):
+        fk = ["instance", "class", "static"][n % 3] if n % 4 else "property"
+        ps = [] if fk == "property" else [{"name": "a", "kind": "poskw", "default": None}, {"name": "b", "kind": "poskw", "default": "None"}]
+        f = {"name": "build", "container": ["Widget"], "fkind": fk, "params": ps, "traces": traces_for(ps)}
+        cases.append({"funcs": [f], "strategy": "REPLICATE", "k": 0, "family": "c12_same_qualname_other_kind"})
     # long names force wrapping at 120 columns; classes one and two levels deep
     for n in range(40 if tier == "quick" else 300):
         ps = rng.choice(sh)
